@@ -471,7 +471,7 @@ theorem collectArgs_aux (hw : T.WFInv) (mac : MacroDef) (hm : macroToksOk T mac 
       · split
         · split
           · exact hcont false _ hpos
-          · exact ih _ _ _ _ st hn hsk hpos (ArgsOk_push T n acc _ _ ha (hdflt _ hpos) (Basic_BL_nil T n))
+          · exact ih _ _ _ _ st hn hsk hpos (ArgsOk_push T n acc _ _ ha (hdflt _ hp) (Basic_BL_nil T n))
         · split
           · split
             · exact ih _ _ _ _ st hn hsk hpos (ArgsOk_push T n acc _ _ ha (hvoid _ hpos) (hvoid _ hpos))
